@@ -721,101 +721,221 @@ theorem push_manifest_last (ups : List UpScript) (sched : List Nat) (man : List 
 
 /-! ### Legacy push -/
 
-theorem tries_spec (mk : Bool → LegEv) : ∀ (n : Nat) (bs : List Bool),
-    (∀ e ∈ (tries mk n bs).1, e = mk true ∨ e = mk false) ∧
-    ((tries mk n bs).2 = true → mk true ∈ (tries mk n bs).1) := by
+theorem exchange_final_mem (m : Method) (b : BodyKind) (rs : List Resp) (r : Resp)
+    (h : (exchange m b rs).2 = some r) : ∃ m', (m', r.status) ∈ (exchange m b rs).1 := by
+  obtain ⟨m', hl⟩ := exchangeFrom_last 10 1 m b rs r h
+  exact ⟨m', List.mem_of_getLast? hl⟩
+
+theorem triesX_spec (i kind : Nat) (m : Method) (b : BodyKind) (okF : Option Resp → Bool) :
+    ∀ (n : Nat) (scripts : List (List Resp)),
+    (∀ e ∈ (triesX i kind m b okF n scripts).1, e.isManifest = false) ∧
+    (∀ r, (triesX i kind m b okF n scripts).2 = some r →
+        okF (some r) = true ∧ ∃ m', LegEv.req i kind m' r.status ∈ (triesX i kind m b okF n scripts).1) := by
   intro n
   induction n with
-  | zero => intro bs; simp [tries]
+  | zero => intro scripts; simp [triesX]
   | succ n ih =>
-    intro bs
-    cases bs with
-    | nil => simp [tries]
-    | cons b bs =>
-      unfold tries
-      by_cases hb : b = true
-      · simp [hb]
-      · simp only [hb]
-        obtain ⟨h1, h2⟩ := ih bs
-        refine ⟨?_, ?_⟩
-        · intro e he
-          rcases List.mem_cons.mp he with h | h
-          · right; exact h
-          · exact h1 e h
-        · intro h; simp [h2 h]
+    intro scripts
+    unfold triesX
+    simp only
+    by_cases hok : okF (exchange m b (scripts.headD [])).2 = true
+    · simp only [hok, if_true]
+      refine ⟨?_, ?_⟩
+      · intro e he; simp only [List.mem_map] at he; obtain ⟨x, _, rfl⟩ := he; rfl
+      · intro r hr
+        refine ⟨by rw [← hr]; exact hok, ?_⟩
+        obtain ⟨m', hm'⟩ := exchange_final_mem m b _ r hr
+        exact ⟨m', List.mem_map.mpr ⟨(m', r.status), hm', rfl⟩⟩
+    · simp only [hok]
+      obtain ⟨h1, h2⟩ := ih scripts.tail
+      refine ⟨?_, ?_⟩
+      · intro e he
+        rcases List.mem_append.mp he with he | he
+        · simp only [List.mem_map] at he; obtain ⟨x, _, rfl⟩ := he; rfl
+        · exact h1 e he
+      · intro r hr
+        obtain ⟨ho, m', hm'⟩ := h2 r hr
+        exact ⟨ho, m', List.mem_append.mpr (Or.inr hm')⟩
 
-/-- the registry accepted layer `i`: HEAD said "present", or the upload's commit PUT succeeded -/
-def accepted (i : Nat) (evs : List LegEv) : Prop :=
-  LegEv.head i 0 ∈ evs ∨ LegEv.commit i true ∈ evs
+/-- the answer on which the code considers layer `i` settled: the final answer of the HEAD
+    exchange ("the registry has it") or of a commit try, with a status the code takes for a
+    success: below 400 — and 2xx in the `strict` (repaired) variant -/
+def settled (strict : Bool) (i : Nat) (evs : List LegEv) : Prop :=
+  ∃ kind m s, LegEv.req i kind m s ∈ evs ∧ (kind = 0 ∨ kind = 3) ∧ s < 400 ∧ (strict = true → is2xx s = true)
 
-theorem legacyLayer_spec (i : Nat) (l : LegacyLayer) :
-    LegEv.manifest ∉ (legacyLayer i l).1 ∧ ((legacyLayer i l).2 = true → accepted i (legacyLayer i l).1) := by
-  have hc := tries_spec (LegEv.commit i) maxRetries l.commit
-  have np : LegEv.manifest ∉ (tries (LegEv.patch i) maxRetries l.patch).1 := by
-    intro h; rcases (tries_spec (LegEv.patch i) maxRetries l.patch).1 _ h with h | h <;> cases h
-  have nc : LegEv.manifest ∉ (tries (LegEv.commit i) maxRetries l.commit).1 := by
-    intro h; rcases hc.1 _ h with h | h <;> cases h
+theorem mrr_ok (strict : Bool) (x : Option Resp) (r : Resp) (h : mrr strict x = .ok r) :
+    x = some r ∧ r.status < 400 ∧ (strict = true → is2xx r.status = true) := by
+  unfold mrr at h
+  split at h
+  · cases h
+  · rename_i r'
+    split at h
+    · cases h
+    · split at h
+      · cases h
+      · split at h
+        · cases h
+        · rename_i h1 h2 h3
+          injection h with h; subst h
+          refine ⟨rfl, by omega, fun hs => ?_⟩
+          simpa [hs] using h3
+
+theorem commitOk_spec (strict : Bool) (r : Resp) (h : commitOk strict (some r) = true) :
+    r.status < 400 ∧ (strict = true → is2xx r.status = true) := by
+  unfold commitOk at h
+  split at h
+  · rename_i r' hr
+    obtain ⟨he, h1, h2⟩ := mrr_ok strict _ r' hr
+    injection he with he; subst he; exact ⟨h1, h2⟩
+  · cases h
+
+theorem map_req_not_manifest (i kind : Nat) (l : List (Method × Nat)) :
+    ∀ e ∈ l.map (fun (p : Method × Nat) => LegEv.req i kind p.1 p.2), e.isManifest = false := by
+  intro e he; simp only [List.mem_map] at he; obtain ⟨x, _, rfl⟩ := he; rfl
+
+theorem legacyLayer_spec (strict : Bool) (i : Nat) (l : LegacyLayer) :
+    (∀ e ∈ (legacyLayer strict i l).1, e.isManifest = false) ∧
+    ((legacyLayer strict i l).2 = true → settled strict i (legacyLayer strict i l).1) := by
+  have hh := map_req_not_manifest i 0 (exchange .head .none l.head).1
+  have hp := map_req_not_manifest i 1 (exchange .post .none l.post).1
+  have ha := triesX_spec i 2 .patch .stream (patchOk strict) maxRetries l.patch
+  have hc := triesX_spec i 3 .put .none (commitOk strict) maxRetries l.commit
   unfold legacyLayer
-  by_cases h0 : l.head = 0
-  · simp [h0, accepted]
-  by_cases h1 : l.head = 1
-  · by_cases hpost : l.post = true
-    · by_cases hpa : (tries (LegEv.patch i) maxRetries l.patch).2 = true
-      · simp only [h1, hpost, hpa]
-        refine ⟨by simp [np, nc], ?_⟩
-        intro hok
-        right
-        simp at hok
-        simp [hc.2 hok]
-      · simp only [h1, hpost, hpa]
-        exact ⟨by simp [np], by simp⟩
-    · simp [h1, hpost]
-  · simp [h0, h1]
+  simp only
+  split
+  · -- HEAD says the registry has it
+    rename_i r hr
+    refine ⟨hh, fun _ => ?_⟩
+    obtain ⟨hx, h1, h2⟩ := mrr_ok strict _ r hr
+    obtain ⟨m', hm'⟩ := exchange_final_mem .head .none l.head r hx
+    exact ⟨0, m', r.status, List.mem_map.mpr ⟨(m', r.status), hm', rfl⟩, Or.inl rfl, h1, h2⟩
+  · exact ⟨hh, by simp⟩
+  · split
+    · rename_i r _
+      split
+      · refine ⟨?_, by simp⟩
+        intro e he
+        rcases List.mem_append.mp he with he | he
+        · exact hh e he
+        · exact hp e he
+      · split
+        · refine ⟨?_, by simp⟩
+          intro e he
+          simp only [List.mem_append] at he
+          rcases he with (he | he) | he
+          · exact hh e he
+          · exact hp e he
+          · exact ha.1 e he
+        · rename_i ra _
+          split
+          · refine ⟨?_, by simp⟩
+            intro e he
+            simp only [List.mem_append] at he
+            rcases he with (he | he) | he
+            · exact hh e he
+            · exact hp e he
+            · exact ha.1 e he
+          · refine ⟨?_, ?_⟩
+            · intro e he
+              simp only [List.mem_append] at he
+              rcases he with ((he | he) | he) | he
+              · exact hh e he
+              · exact hp e he
+              · exact ha.1 e he
+              · exact hc.1 e he
+            · intro hsome
+              cases hcr : (triesX i 3 .put .none (commitOk strict) maxRetries l.commit).2 with
+              | none => simp [hcr] at hsome
+              | some rc =>
+                obtain ⟨hok, m', hm'⟩ := hc.2 rc hcr
+                obtain ⟨h1, h2⟩ := commitOk_spec strict rc hok
+                exact ⟨3, m', rc.status, by simp [hm'], Or.inr rfl, h1, h2⟩
+    · refine ⟨?_, by simp⟩
+      intro e he
+      rcases List.mem_append.mp he with he | he
+      · exact hh e he
+      · exact hp e he
 
-/-- **Push, legacy path (`PushModel`): the manifest is committed last.**  For every number of
-    layers and every scripted answer to every HEAD / POST / PATCH try / commit try: if the push
-    goes through, the request log is `body ++ [manifest PUT]` with no other manifest PUT and with
-    every layer accepted (HEAD present or commit succeeded) inside `body`; if any layer fails,
-    no manifest PUT is ever sent. -/
-theorem legacy_push_manifest_last (ls : List LegacyLayer) : ∀ i : Nat,
-    ((legacyPush i ls).2 = true → ∃ body, (legacyPush i ls).1 = body ++ [.manifest] ∧
-        LegEv.manifest ∉ body ∧ ∀ j, j < ls.length → accepted (i + j) body) ∧
-    ((legacyPush i ls).2 = false → LegEv.manifest ∉ (legacyPush i ls).1) := by
+theorem legacyLayers_spec (strict : Bool) (ls : List LegacyLayer) : ∀ i : Nat,
+    (∀ e ∈ (legacyLayers strict i ls).1, e.isManifest = false) ∧
+    ((legacyLayers strict i ls).2 = true →
+      ∀ j, j < ls.length → settled strict (i + j) (legacyLayers strict i ls).1) := by
   induction ls with
-  | nil =>
-    intro i
-    refine ⟨fun _ => ⟨[], by simp [legacyPush], by simp, by simp⟩, by simp [legacyPush]⟩
+  | nil => intro i; simp [legacyLayers]
   | cons l ls ih =>
     intro i
-    obtain ⟨hnm, hacc⟩ := legacyLayer_spec i l
+    obtain ⟨hnm, hacc⟩ := legacyLayer_spec strict i l
     obtain ⟨ih1, ih2⟩ := ih (i + 1)
-    unfold legacyPush
-    by_cases hl : (legacyLayer i l).2 = true
+    unfold legacyLayers
+    by_cases hl : (legacyLayer strict i l).2 = true
     · simp only [hl, if_true]
       refine ⟨?_, ?_⟩
-      · intro hok
-        obtain ⟨body, hb, hnb, hall⟩ := ih1 hok
-        refine ⟨(legacyLayer i l).1 ++ body, by rw [hb, List.append_assoc], ?_, ?_⟩
-        · simp [hnm, hnb]
-        · intro j hj
-          cases j with
-          | zero =>
-            rcases hacc hl with h | h
-            · left; simp [h]
-            · right; simp [h]
-          | succ j =>
-            have := hall j (by simp at hj; omega)
-            have e : i + (j + 1) = i + 1 + j := by omega
-            rw [e]
-            rcases this with h | h
-            · left; simp [h]
-            · right; simp [h]
-      · intro hf
-        have := ih2 hf
-        simp [hnm, this]
+      · intro e he
+        rcases List.mem_append.mp he with he | he
+        · exact hnm e he
+        · exact ih1 e he
+      · intro hok j hj
+        cases j with
+        | zero =>
+          obtain ⟨k, m, s, hm, hk, h1, h2⟩ := hacc hl
+          exact ⟨k, m, s, List.mem_append.mpr (Or.inl hm), hk, h1, h2⟩
+        | succ j =>
+          obtain ⟨k, m, s, hm, hk, h1, h2⟩ := ih2 hok j (by simp at hj; omega)
+          have e : i + (j + 1) = i + 1 + j := by omega
+          rw [e]
+          exact ⟨k, m, s, List.mem_append.mpr (Or.inr hm), hk, h1, h2⟩
     · simp only [hl]
-      exact ⟨by simp, fun _ => hnm⟩
+      exact ⟨hnm, by simp⟩
 
+theorem legacyManifest_spec (strict : Bool) (man : List Resp) :
+    (legacyManifest strict man).1 ≠ [] ∧ ∀ e ∈ (legacyManifest strict man).1, e.isManifest = true := by
+  refine ⟨?_, ?_⟩
+  · simp only [legacyManifest, ne_eq, List.map_eq_nil_iff]
+    exact exchangeFrom_ne_nil 10 1 _ _ man
+  · intro e he
+    simp only [legacyManifest, List.mem_map] at he
+    obtain ⟨x, _, rfl⟩ := he; rfl
+
+/-- **Push, legacy path (`PushModel`): the manifest is committed last.**  For every number of
+    layers and every scripted answer (any status, with or without `Location`, redirect chains) to
+    every physical request of every HEAD / POST / PATCH try / commit try / manifest exchange: a
+    request of the manifest exchange is sent iff every layer was settled; then the log is
+    `body ++ manifest exchange`, `body` has no manifest request, and for every layer `body`
+    holds the answer that settled it — the final answer of its HEAD exchange or of a commit try.
+    What the code accepts as "settled" is any status below 400 (finding F18: also 1xx and 3xx
+    answers net/http did not follow); in the `strict` (repaired) variant it is a 2xx. -/
+theorem legacy_push_manifest_last (strict : Bool) (ls : List LegacyLayer) (man : List Resp) :
+    ((∃ e ∈ (legacyPush strict ls man).1, e.isManifest = true) ↔ (legacyLayers strict 0 ls).2 = true) ∧
+    ((legacyLayers strict 0 ls).2 = true → ∃ body,
+        (legacyPush strict ls man).1 = body ++ (legacyManifest strict man).1 ∧
+        (∀ e ∈ body, e.isManifest = false) ∧ ∀ j, j < ls.length → settled strict j body) ∧
+    ((legacyPush strict ls man).2 = true → (legacyLayers strict 0 ls).2 = true) := by
+  obtain ⟨h1, h2⟩ := legacyLayers_spec strict ls 0
+  obtain ⟨hne, hman⟩ := legacyManifest_spec strict man
+  unfold legacyPush
+  by_cases hl : (legacyLayers strict 0 ls).2 = true
+  · simp only [hl, if_true]
+    refine ⟨⟨fun _ => trivial, fun _ => ?_⟩, fun _ => ⟨_, rfl, h1, fun j hj => ?_⟩, fun _ => trivial⟩
+    · obtain ⟨e, he⟩ := List.exists_mem_of_ne_nil _ hne
+      exact ⟨e, List.mem_append.mpr (Or.inr he), hman e he⟩
+    · have := h2 hl j hj
+      simpa using this
+  · simp only [hl]
+    refine ⟨⟨fun ⟨e, he, hm⟩ => ?_, fun h => by simp at h⟩, fun h => by simp at h, fun h => by simp at h⟩
+    rw [h1 e he] at hm; cases hm
+
+/-- **F18 witness.**  The legacy push takes a `304 Not Modified` answer to the blob HEAD for "the
+    registry has this blob": the layer is never uploaded, the manifest is PUT, the push reports
+    success.  Likewise a `300` without `Location` answered to the commit PUT.  In the `strict`
+    variant both pushes fail before any manifest request. -/
+theorem F18_legacy_non_2xx_counts_as_accepted :
+    legacyPush false [⟨[⟨304, false⟩], [], [], []⟩] [] =
+      ([.req 0 0 .head 304, .man .put 200], true) ∧
+    legacyPush false [⟨[⟨404, false⟩], [⟨202, true⟩], [[⟨202, true⟩]], [[⟨300, false⟩]]⟩] [] =
+      ([.req 0 0 .head 404, .req 0 1 .post 202, .req 0 2 .patch 202, .req 0 3 .put 300, .man .put 200], true) ∧
+    (legacyPush true [⟨[⟨304, false⟩], [], [], []⟩] []).2 = false ∧
+    (∀ e ∈ (legacyPush true [⟨[⟨304, false⟩], [], [], []⟩] []).1, e.isManifest = false) := by
+  decide
 
 /-! ### Witnesses of F10 (the model shares these defects with the code).  `D := Bytes`, `H := id`:
     a digest is its pre-image, so "the file hashes to the layer digest" is "file = digest". -/
@@ -1310,7 +1430,7 @@ example :
       some ([.req 0 false .post 202, .req 0 true .put 302, .req 0 true .get 200, .man .put 200], true) := by
   decide
 
-example : (legacyPush 0 [⟨1, true, [false, true], []⟩, ⟨0, true, [], []⟩]).2 = true ∧
-    (legacyPush 0 [⟨1, true, [false, false, false, false, false, false], []⟩]).2 = false := by decide
+example : (legacyPush false [⟨[⟨404, false⟩], [⟨202, true⟩], [[⟨500, false⟩], [⟨202, true⟩]], []⟩, ⟨[⟨200, false⟩], [], [], []⟩] []).2 = true ∧
+    (legacyPush false [⟨[⟨404, false⟩], [⟨202, true⟩], [[⟨500, false⟩], [⟨500, false⟩], [⟨500, false⟩], [⟨500, false⟩], [⟨500, false⟩], [⟨500, false⟩]], []⟩] []).2 = false := by decide
 
 end OllamaVerif.C09
